@@ -17,8 +17,8 @@ import (
 //
 // withBounds: the feature schema's boundary-default fields (bounds, numDefault, numUse and the
 // @num directive); withCalc: the hand-written probe/hand.Calc behind Query.calc.
-func harnessSource(withBounds, withCalc bool) string {
-	s := harnessTemplate
+func harnessSource(withBounds, withCalc bool, execImport string) string {
+	s := strings.Replace(harnessTemplate, "EXECIMPORT", execImport, 1)
 	keep := func(tag string, on bool) {
 		var out []string
 		for _, l := range strings.Split(s, "\n") {
@@ -53,7 +53,7 @@ import (
 	"github.com/99designs/gqlgen/graphql/handler"
 	"github.com/99designs/gqlgen/graphql/handler/transport"
 
-	"probe/graph"
+	graph "EXECIMPORT"
 	//CALC "probe/hand"
 )
 
